@@ -23,6 +23,6 @@ git checkout -- .
 d2="$(timeout 600 cargo test --offline --test demo 2>&1 | grep -E '^test result|SIGABRT|overflowed|error\[' | head -3 | tr '\n' ' ')"; res "demo-without-patch: $d2"
 rm -rf tests
 S=/verif/seeded/$NAME; mkdir -p "$S"; cp "$P" "$S/patch.diff"; cp "$D" "$S/demo.rs"; [ -f "$M" ] && cp "$M" "$S/agent-meta.json"
-cd /verif && ./tools/try_mutant.sh "$S/patch.diff" > /tmp/detect${DETECT_TAG:-}-$NAME.log 2>&1
+cd /verif && ./tools/try_mutant.sh "$S/patch.diff" ${SEED_IDS:-} > /tmp/detect${DETECT_TAG:-}-$NAME.log 2>&1
 tail -1 /tmp/detect${DETECT_TAG:-}-$NAME.log >> /tmp/confirm-$NAME.log
 grep -E "rc=1|rc=2|FIRED" /tmp/detect${DETECT_TAG:-}-$NAME.log
